@@ -132,6 +132,10 @@ class ConcreteSym:
     def realize(self, v):
         return v
 
+    def constrain(self, *conds):
+        if not all(conds):
+            raise AssumeFailed("constraint false on recorded inputs")
+
     def cover(self, tag):
         self.tags[tag] = self.tags.get(tag, 0) + 1
 
